@@ -27,12 +27,15 @@ const INPUTS = {
   literals: { file: '/p/h.js', code: 'const secret = "a long secret literal";\nfunction f(a) { const k = { key: "another long literal" }; return a + "yet another long literal" + secret }\n' },
   long: { file: '/p/i.js', code: 'function f(a, b, o) {\n  { let x = a + g() + h(); }\n  { o.p += b.trim() + `${a}${g()}`; }\n  for (const q of o) { if (q?.trim().length) { b += q } }\n  return a.concat(b, g())\n}\n' }
 }
-const INSTANCES = { R1: BASE, R2: BASE, R3: NOPREFIX }
+const OTHER = Object.assign({}, C.PLUS_ONLY, { localVarPrefix: 'zz', comments: false, chainSourceMap: false, literals: false, telemetryVerbosity: 'OFF' })
+const INSTANCES = { R1: BASE, R2: BASE, R3: NOPREFIX, R4: OTHER }
 
 function alphabet (tier) {
   const out = []
   for (const inp of Object.keys(INPUTS)) { out.push('R1:' + inp); out.push('R2:' + inp) }
   out.push('R3:mod'); out.push('R3:long')
+  // a rewriter with a DIFFERENT configuration interleaved with the others
+  out.push('R4:mod'); out.push('R4:long'); out.push('R4:chained')
   return out
 }
 
